@@ -39,11 +39,12 @@ func c25Scope(f *core.Fn) bool {
 }
 
 func runC25(c *core.Ctx) {
-	lockRules(c, c25Scope, 25)
+	n := lockRules(c, c25Scope, 25)
+	c.Check(n >= 1, "no-reentry-through-callback", "calls that pass the locked receiver to a callee", token.NoPos, "none found: the rule matches nothing (AdjRIBOut.ReplaceFilterChain → LocRIB.RefreshClient(a) was the confirmed instance)")
 }
 
 // lockRules runs the four deadlock rules over the functions in scope (shared with C33 for the IS-IS/device packages).
-func lockRules(c *core.Ctx, scope func(*core.Fn) bool, floorFns int) {
+func lockRules(c *core.Ctx, scope func(*core.Fn) bool, floorFns int) (reentrySites int) {
 	p := c.P
 	lp := core.BuildLockProg(p, scope)
 	nLock := 0
@@ -215,10 +216,9 @@ func lockRules(c *core.Ctx, scope func(*core.Fn) bool, floorFns int) {
 			}
 		}
 	}
-	c.Check(reentry >= 1, "no-reentry-through-callback", "calls that pass the locked receiver to a callee", token.NoPos, "none found: the rule matches nothing (AdjRIBOut.ReplaceFilterChain → LocRIB.RefreshClient(a) was the confirmed instance)")
-
 	// (c) blocking send under a lock the receiver needs
 	blockingSends(c, lp)
+	return reentry
 }
 
 func short(class string) string {
